@@ -397,6 +397,10 @@ inductive Timer where
   | disabled | inactive | active (deadline : Nat)
   deriving Repr, DecidableEq
 
+def Timer.isActive : Timer → Bool
+  | .active _ => true
+  | _ => false
+
 def Timer.ready (t : Timer) (now : Nat) : Bool :=
   match t with
   | .active d => d ≤ now
@@ -424,7 +428,9 @@ inductive St where
   deriving Repr
 
 inductive Msg where
-  | item (rid : Nat) (hasBody : Bool)
+  /-- a queued request and the `EncodeCtx` its response is encoded with (only the connection type
+  matters here: `true` = `ConnectionType::Close`) -/
+  | item (rid : Nat) (hasBody : Bool) (ctxClose : Bool)
   | error (statusLineLen : Nat)
   deriving Repr
 
@@ -536,7 +542,8 @@ def dropHFut (w : World) (h : HFut) : World := if h.hasPl then dropReader w h.ri
 replaced by `state.set(..)` at the end -/
 def sendResponse (e : Env) (d : D) (w : World) (statusLine : Nat) (rid : Nat) (resp : RespKind)
     (h? : Option HFut) : D × World :=
-  let closeUnread := closeForUnread d w
+  -- with queued requests the payload slot belongs to a later request (l.474)
+  let closeUnread := closeForUnread d w && d.messages.isEmpty
   let codecClose := d.codecClose || closeUnread
   let size := resp.size
   let d := ({ d with codecClose := codecClose }).produce (headLen statusLine size codecClose)
@@ -662,8 +669,8 @@ def isNone : St → Bool
 /-- `Message::Item` up to the payload set-up (l.902–935) -/
 def onItem (e : Env) (d : D) (w : World) (rid : Nat) (body : ReqBody) (segs : List Seg) (rb : Nat) :
     D × World :=
-  let d := { d with pendSegs := segs, rb := rb, headTimer := .inactive,
-                    codecClose := !e.cfg.kaEnabled }
+  let _ := e
+  let d := { d with pendSegs := segs, rb := rb, headTimer := .inactive }
   match body with
   | .none => ({ d with drainable := false }, w)
   | .sized _ => ({ d with payload := some rid, drainable := false }, w.setChan rid {})
@@ -683,11 +690,15 @@ def decodeLoop (e : Env) : Nat → D → World → Bool → Bool × D × World
     | (.item rid body, segs, rb) =>
       match onItem e d w rid body segs rb with
       | (d, w) =>
+        -- `Codec::decode` sets the encode context from the request head (`Close` unless
+        -- keep-alive is enabled); for a queued request it travels with the message and the
+        -- in-flight response keeps its own (l.913/l.960)
         if isNone d.st then
-          match handleRequest e d w rid with
+          match handleRequest e { d with codecClose := !e.cfg.kaEnabled } w rid with
           | (d, w) => decodeLoop e fuel d w true
         else
-          decodeLoop e fuel { d with messages := d.messages ++ [.item rid (body != .none)] } w true
+          decodeLoop e fuel
+            { d with messages := d.messages ++ [.item rid (body != .none) (!e.cfg.kaEnabled)] } w true
     | (.chunk n, segs, rb) =>
       match d.payload with
       | some rid => decodeLoop e fuel { d with pendSegs := segs, rb := rb } (feedData w rid n) true
@@ -738,8 +749,9 @@ def pollResponse (e : Env) : Nat → D → World → PR × D × World
     match d.st with
     | .none =>
       match d.messages with
-      | .item rid _ :: rest =>
-        pollResponse e fuel { d with messages := rest, st := .service (mkHFut e rid) }
+      | .item rid _ ctxClose :: rest =>
+        pollResponse e fuel
+          { d with messages := rest, st := .service (mkHFut e rid), codecClose := ctxClose }
           { w with calls := w.calls + 1 }
       | .error sl :: rest =>
         let (d, w) := sendResponse e { d with messages := rest } w sl 0 .zero none
@@ -817,14 +829,21 @@ def pollTimers (e : Env) (d : D) (w : World) : Option ErrKind × D × World :=
     if d.headTimer.ready w.now then
       let h? := match d.st with | .service h => some h | _ => none
       let (d, w) := sendResponse e d w statusLine408 0 .zero h?
-      ({ d with flags := { d.flags with shutdown := true } }, w)
+      -- the timer is cleared after it fired (l.1075)
+      ({ d with flags := { d.flags with shutdown := true }, headTimer := .inactive }, w)
     else (d, w)
   -- poll_ka_timer (l.1055)
   let d :=
     if d.kaTimer.ready w.now then
+      -- the ka timer is cleared; a shutdown timer that is already running keeps its deadline
       match e.cfg.discMs with
-      | some ms => { d with flags := { d.flags with shutdown := true }, shutdownTimer := .active (w.now + ms) }
-      | none => { d with flags := { d.flags with shutdown := true, writeDisc := true } }
+      | some ms =>
+        { d with flags := { d.flags with shutdown := true }, kaTimer := .inactive,
+                 shutdownTimer := match d.shutdownTimer with
+                   | .active dl => .active dl
+                   | _ => .active (w.now + ms) }
+      | none =>
+        { d with flags := { d.flags with shutdown := true, writeDisc := true }, kaTimer := .inactive }
     else d
   -- poll_shutdown_timer (l.1098)
   if d.shutdownTimer.ready w.now then
@@ -860,16 +879,16 @@ def ensureLingerTimer (e : Env) (d : D) (now : Nat) : Bool × D :=
     | some ms => (true, { d with shutdownTimer := .active (now + ms) })
     | none => (false, d)
 
-/-- `poll_linger` (l.400) -/
+/-- `poll_linger` (l.400): the disconnect timer is started before the flush -/
 def pollLinger (e : Env) (d : D) (w : World) : LR × D × World :=
-  match dFlush d w with
-  | (.err, d, w) => (.err .writeZero, d, w)
-  | (.pending, d, w) => (.pending, d, w)
-  | (.ready, d, w) =>
-    match ensureLingerTimer e d w.now with
-    | (false, d) =>
-      (.ready, { d with flags := { d.flags with linger := false, shutdown := true } }, w)
-    | (true, d) => lingerLoop e (w.wireLeft + w.rops.length + 4) d w
+  match ensureLingerTimer e d w.now with
+  | (false, d) =>
+    (.ready, { d with flags := { d.flags with linger := false, shutdown := true } }, w)
+  | (true, d) =>
+    match dFlush d w with
+    | (.err, d, w) => (.err .writeZero, d, w)
+    | (.pending, d, w) => (.pending, d, w)
+    | (.ready, d, w) => lingerLoop e (w.wireLeft + w.rops.length + 4) d w
 
 inductive PollRes where
   | pending | ready | err (k : ErrKind)
@@ -884,7 +903,8 @@ def respFlushLoop (e : Env) (prFuel : Nat) : Nat → D → World → Option ErrK
     | (pr, d, w) =>
       let drain := pr == .drain
       let d :=
-        if !drain && d.flags.keepAlive && d.flags.finished then
+        -- a keep-alive timer that is already running keeps its deadline (l.1410)
+        if !drain && d.flags.keepAlive && d.flags.finished && !d.kaTimer.isActive then
           match e.cfg.kaMs with
           | some ms => { d with kaTimer := .active (w.now + ms) }
           | none => d
@@ -902,10 +922,11 @@ def lingerBranch (e : Env) (d : D) (w : World) : PollRes × D × World :=
   | (.pending, d, w) => (.pending, d, w)
 
 /-- the `SHUTDOWN` branch of `Dispatcher::poll` (l.1312) -/
-def shutdownBranch (d : D) (w : World) : PollRes × D × World :=
+def shutdownBranch (e : Env) (d : D) (w : World) : PollRes × D × World :=
   if d.flags.writeDisc then (.ready, d, w)
   else
-    match dFlush d w with
+    -- every path into SHUTDOWN is bounded by the disconnect timeout (l.1352)
+    match dFlush (ensureLingerTimer e d w.now).2 w with
     | (.err, d, w) => (.err .writeZero, d, w)
     | (.pending, d, w) => (.pending, d, w)
     | (.ready, d, w) =>
@@ -983,7 +1004,7 @@ def poll (e : Env) (bigFuel : Nat) : Nat → D → World → PollRes × D × Wor
     | (some k, d, w) => (.err k, d, w)
     | (none, d, w) =>
       if d.flags.linger then lingerBranch e d w
-      else if d.flags.shutdown then shutdownBranch d w
+      else if d.flags.shutdown then shutdownBranch e d w
       else
         match readAvailable e d w with
         | (.err, d, w) => (.err .ioReset, d, w)
